@@ -50,10 +50,11 @@ static inline Rng substream(uint64_t run_seed, const char *tag) { return Rng(mix
 // Events never contain an address or a clock value.
 struct EventLog {
 	uint64_t fp = 0x243f6a8885a308d3ULL;
+	uint64_t sem = 0;   // order-independent sum over the "op" and "violation" events only: what the calls returned, not how (allocation requests, switches)
 	uint64_t count = 0;
 	bool trace = false;
 	std::vector<std::string> lines;
-	void reset(bool tr) { fp = 0x243f6a8885a308d3ULL; count = 0; trace = tr; lines.clear(); }
+	void reset(bool tr) { fp = 0x243f6a8885a308d3ULL; sem = 0; count = 0; trace = tr; lines.clear(); }
 	void ev(const char *kind, int task, int op, uint64_t a = 0, uint64_t b = 0, uint64_t c = 0);
 };
 extern EventLog g_log;
@@ -88,6 +89,9 @@ void sched_configure(const SchedConfig &cfg);
 // The switches actually taken are appended to `recorded`.
 void sched_run_phase(int ntasks, const int *task_ids, TaskBody body, void *arg, std::vector<Switch> &recorded);
 void sched_yield_point(int site);           // callable from anywhere; no-op unless in a concurrent phase
+// A yield at which a switch is wanted (instruction-level preemption): another runnable thread is chosen (seeded / from
+// the replay script). Returns false if nobody else could run or the thread is inside a lock region.
+bool sched_yield_point_forced(int site);
 int  sched_current_task();                  // 0 = main
 bool sched_in_phase();
 const SchedStats &sched_stats();
@@ -102,7 +106,9 @@ void sched_lock_exit();
 int sched_lock_depth();
 
 // site ids for simulator-originated yield points (library H1 sites use 1..15)
-enum { SITE_OP_BEGIN = 16, SITE_OP_END = 17, SITE_ALLOC = 18, SITE_FREE = 19, SITE_MMAP = 20, SITE_MPROTECT = 21, SITE_MUNMAP = 22, SITE_TASK_END = 23, SITE_PHASE_START = 24, SITE_SIGACTION = 25, SITE_PREEMPT = 26 };
+enum { SITE_OP_BEGIN = 16, SITE_OP_END = 17, SITE_ALLOC = 18, SITE_FREE = 19, SITE_MMAP = 20, SITE_MPROTECT = 21, SITE_MUNMAP = 22, SITE_TASK_END = 23, SITE_PHASE_START = 24, SITE_SIGACTION = 25, SITE_PREEMPT = 26, SITE_ALLOC_TINY = 27, SITE_FREE_TINY = 28 };
+// sites passed thousands of times per call: a switch there is 16 times less likely than at the others
+static inline bool site_is_dense(int site) { return site == 3 || site == 6 || site == 7 || site == SITE_ALLOC_TINY || site == SITE_FREE_TINY; }
 
 // ---------------------------------------------------------------- misc
 std::string hex(const void *p, size_t n);
